@@ -241,7 +241,7 @@ pub fn run(ctx: &mut Ctx) {
             if ks.is_empty() {
                 continue;
             }
-            let cases = ctx.cases((ks.len() * 40) as u32, 20);
+            let cases = ctx.cases((ks.len() * 80) as u32, 10);
             ctx.forall(&format!("pairs/{}/{}", id.name(), st.name()), cases, pair_strat(id, st, ks.clone()), pair);
             let m = id.model();
             let sorts = select(ks).prop_flat_map(move |k| vec(gen::codes_n(m, k), 0..12).prop_map(move |list| SortCase { codec: id, st, k, list }));
@@ -302,6 +302,18 @@ pub fn run(ctx: &mut Ctx) {
     for id in ALL_CODECS {
         let cases = ctx.cases(2500, 20);
         ctx.forall(&format!("seqs/{}", id.name()), cases, seq_strat(id, max), seq_dispatch);
+    }
+    for id in ALL_CODECS {
+        let m = id.model();
+        let th = ctx.thorough();
+        let cases = ctx.cases(5, 8);
+        let st = (gen::owned_spec_long(id, th), gen::owned_repr(m), gen::owned_repr(m))
+            .prop_flat_map(move |(a, rb, rc)| {
+                let ca = a.codes.clone();
+                (Just(a), related(m, ca.clone()), Just(rb), related(m, ca), Just(rc))
+            })
+            .prop_map(move |(a, b, rb, c, rc)| SeqTriple { codec: id, a, b: SeqSpec { codes: b, repr: rb }, c: SeqSpec { codes: c, repr: rc } });
+        ctx.forall(&format!("seqs_long/{}", id.name()), cases, st, seq_dispatch);
     }
     ctx.each("readme", vec![0u8], readme);
     ctx.require_class("lex_differs_from_colex");
